@@ -699,8 +699,67 @@ class Exec(object):
         else:
             self.exec_block(st.orelse, fr, mod, cls)
 
+    def _symbolic_range_loop(self, st, fr, mod, cls):
+        """loop contract for `for v in range(a, b, step)` with symbolic bounds (enabled per scenario by ex.havoc_range_loops):
+        the body is executed ONCE for an arbitrary admissible value of v (this checks that an arbitrary iteration raises nothing);
+        afterwards every name assigned in the body is havocked: the loop variable becomes an arbitrary value in
+        {value before the loop} U range, all other assigned names become undefined.  The body may only assign plain names."""
+        call = st.iter
+        if not (isinstance(call, ast.Call) and isinstance(call.func, ast.Name) and call.func.id == 'range' and isinstance(st.target, ast.Name)):
+            raise OutOfSubset('symbolic loop that is not a range loop')
+        args = [self.optable.int_expr(self.eval(a, fr, mod, cls)) for a in call.args]
+        if len(args) == 1:
+            lo, hi, step = 0, args[0], 1
+        elif len(args) == 2:
+            lo, hi, step = args[0], args[1], 1
+        else:
+            lo, hi, step = args
+        if is_sym(step) or step not in (1, -1):
+            raise OutOfSubset('symbolic range loop with a step other than +-1')
+        for n in ast.walk(ast.Module(body=st.body, type_ignores=[])):
+            if isinstance(n, (ast.Assign, ast.AugAssign)):
+                tg = n.targets if isinstance(n, ast.Assign) else [n.target]
+                for t in tg:
+                    for e in (t.elts if isinstance(t, (ast.Tuple, ast.List)) else [t]):
+                        if not isinstance(e, ast.Name):
+                            raise OutOfSubset('symbolic range loop whose body assigns to a subscript / attribute')
+        v = fresh_int('loopvar')
+        in_range = z3.And(v >= to_int(lo), v < to_int(hi)) if step == 1 else z3.And(v <= to_int(lo), v > to_int(hi))
+        name = st.target.id
+        prev = fr.locals.get(name)
+        assigned = set()
+        for n in ast.walk(ast.Module(body=st.body, type_ignores=[])):
+            if isinstance(n, ast.Name) and isinstance(n.ctx, ast.Store):
+                assigned.add(n.id)
+        if self.decide(z3.And(in_range, True)) if True else False:
+            # an arbitrary iteration
+            self.pc.add(in_range)
+            fr.locals[name] = v
+            try:
+                self.exec_block(st.body, fr, mod, cls)
+            except (_Break, _Continue):
+                pass
+            for a in assigned:
+                fr.locals.pop(a, None)
+            out = fresh_int('loopexit')
+            conds = [z3.And(out >= to_int(lo), out < to_int(hi)) if step == 1 else z3.And(out <= to_int(lo), out > to_int(hi))]
+            if prev is not None and (isinstance(prev, int) or is_sym(prev)):
+                conds.append(out == to_int(prev))
+            self.pc.add(z3.Or(*conds))
+            fr.locals[name] = out
+        else:
+            # the range is empty on this path: the loop variable keeps its value
+            if prev is not None:
+                fr.locals[name] = prev
+        self.notes.append(('loop_contract', '%s: symbolic range loop summarised (one arbitrary iteration checked, assigned names havocked)' % getattr(mod, 'name', '?')))
+
     def st_For(self, st, fr, mod, cls):
-        it = self.iterate(self.eval(st.iter, fr, mod, cls), live=True)
+        try:
+            it = self.iterate(self.eval(st.iter, fr, mod, cls), live=True)
+        except OutOfSubset as e:
+            if 'symbolic bound' in str(e) and getattr(self, 'havoc_range_loops', False):
+                return self._symbolic_range_loop(st, fr, mod, cls)
+            raise
         broke = False
         for x in it:
             self.assign(st.target, x, fr, mod, cls)
